@@ -117,7 +117,8 @@ CHECKS = {
         note="Trusted: as C01. Partial: stack exhaustion is runtime behaviour outside the model (depth 128 is executed; an abort is reported). Assumes user functions and IntoValue impls return. No axioms."),
     "C14": dict(
         text="Proof: (c14_first_report) the message of an always-Break pass-through error type is the rendering of the first call to the error type, and that call is the same under "
-             "every script (hence the first report of the keep-going run); (c14_ok_same) an Ok run is the same run under every script. Correspondence: JsonError and QueryParamError messages "
+             "every script (hence the first report of the keep-going run); (c14_ok_same) an Ok run is the same run under every script; (c14_path_roundtrip, c14_path_injective) the JSON rendering of a location parses back into exactly its steps "
+             "when no key contains '.' or '[' (for other keys the text is ambiguous by nature), hence names the place unambiguously. Correspondence: JsonError and QueryParamError messages "
              "compared character by character with Messages.v (paths, expected-kinds phrase, JSON text incl. escaping, did-you-mean, lengths) on every kind at every depth; monitor adds that "
              "the first report is true of the payload (path resolves to the quoted value).",
         ref="5 C14", technique="Coq theorems from the answer-insensitivity invariant + C01/C12; exact-string in-Coq differential check",
